@@ -93,6 +93,12 @@ def check(ctx: Ctx) -> None:
               f"(and '<' opens a tag for elements whose content is parsed)", witness=f"Tag({extra[0] if extra else 'title'!r}, 'a &lt; b <i>')")
     from .c15 import name_idempotence
     name_idempotence(ctx, "C01.attrs")
+    # numeric leaves are stored as their str() text (a number that is dropped or stored otherwise is missing from its text run)
+    from .c02 import numbers_as_text
+    numbers_as_text(ctx, "C01")
+    # render()/str() work on a copy whose attributes were re-inserted one by one through __setitem__: nothing may get lost there
+    from .c03 import setitem_obligations
+    setitem_obligations(ctx, "C01")
     # .1-.3 frames
     nf = 0
     for sc, hits in frames(m):
